@@ -9,34 +9,59 @@ import json, os, itertools
 import cybuild
 
 TITLE = "Generators and coroutines follow CPython's protocol on every history"
-EXTRACTS = ["Gen"]
+EXTRACTS = ["Gen", "AsyncGen"]
 RULE = ("table bodies: random step tables (<=5 labels, outcomes yield/yield-from/return/raise per input class, "
         "sub-iterators = list iterator, nested generator of the same or the other implementation, scripted "
         "object with any subset of send/throw/close) x random histories over {next, send None/v, throw "
         "GeneratorExit/StopIteration(v)/user, close, del} of length <= 6 (quick) / 8 (thorough); structured "
         "bodies: random programs over yield/yield from/await/try/finally/except/with/for/return/raise x "
-        "histories; distinct by (body, history); non-trivial = the body is resumed at least once")
+        "histories; async generators: random step tables (async yield / await of a list or scripted awaitable / "
+        "return / raise incl. StopAsyncIteration, StopIteration, GeneratorExit rows favoured) x histories over "
+        "{__anext__, asend(v), athrow(E), aclose() created in one of three slots; send/next/throw/close/drive on "
+        "the awaitable of a slot; drop} with optional asyncgen hooks, length <= 6 / 8, plus ALL histories of length "
+        "<= 3 (quick) / 4 (thorough) over nine operations on three fixed bodies (ignores GeneratorExit by yielding; "
+        "awaits in the GeneratorExit handler; raises StopAsyncIteration/StopIteration/returns); histories on which "
+        "the model predicts the death of the process are run apart, each in its own process; "
+        "distinct by (body, history); non-trivial = the body is resumed at least once")
 EXPLANATION = ("theorems: for every body (arbitrary step function over an arbitrary type of suspension points), "
                "every sub-iterator (arbitrary coinductive object) and every history the repaired Cython machine "
                "and the CPython 3.12 machine give the same per-operation results, the same resumptions of user "
                "code and corresponding final states; the same holds for the code as it is on histories avoiding "
                "four finding classes (refuted otherwise); close is idempotent; abandonment resumes the body with "
                "GeneratorExit exactly once. partial: the body is abstract (exception state save/restore, "
-               "tracebacks, __context__ chains, async generators and the awaitable protocol are only tested "
-               "differentially), am_send of generator-like types is assumed equal to next/send")
+               "tracebacks, __context__ chains are only tested differentially), am_send of generator-like types "
+               "is assumed equal to next/send. Async generators: the layer of AsyncGen.c (awaitable states "
+               "INIT/ITER/CLOSED, ag_closed, ag_running_async, hooks, wrapped-value protocol, finalisation) over the "
+               "Cython machine gives the same observations as the same layer over the CPython machine for every "
+               "body, variant and history (C23_agen_bisim); aclose() marks the generator closed whatever the body "
+               "does, a closed generator answers StopAsyncIteration without resuming the body, finished awaitables "
+               "are inert; the seeded ag_closed-late variant and each place where AsyncGen.c differs from CPython "
+               "3.12.1 are refuted by witnesses. partial: the layer is written once and instantiated twice (the "
+               "variant flags carry the differences), finalisation of a body that returns on GeneratorExit under "
+               "CPython 3.12 (unraisable StopAsyncIteration) is not modelled, structured async bodies are tested "
+               "differentially without throw()/close() on the awaitables")
 TRUSTED = ["model of CPython 3.12 genobject.c / SEND / CLEANUP_THROW written by hand (py_op), validated on every "
            "run against the running CPython",
            "am_send(o, v) of generator-like C types == (v is None ? next(o) : o.send(v))",
-           "CPython 3.12.1 as the property oracle (same source executed as plain Python)"]
+           "CPython 3.12.1 as the property oracle (same source executed as plain Python)",
+           "model of CPython 3.12.1 async_gen_asend_*/athrow_* (av_py variant of M_AsyncGen), validated on every run "
+           "against the running CPython"]
 ASSUMPTIONS = ["CPython 3.12 semantics (close() returns None; StopIteration reaching a yield-from point from "
                "outside is its value; throw() into a just-started generator bypasses PEP 479)",
                "language_level=3 (generator_stop in effect)"]
 
 # model variant = the code as it is; after the patches in proposed_fixes/C23-*.diff are applied
 # flip the corresponding character to "1" (order: first_send, throw_si_fresh, close_ret, si_at_yf)
-FX = os.environ.get("C23_FX", "1010")
+FX = os.environ.get("C23_FX", "10100")
 FX_NAMES = ["send_nonnone_just_started_terminates", "throw_stopiteration_just_started_pep479",
-            "close_return_value_in_genexit_handler", "stopiteration_reaching_yield_from"]
+            "close_return_value_in_genexit_handler", "stopiteration_reaching_yield_from",
+            "asyncgen_never_started_drop_warns_never_awaited"]
+# async generator layer (AsyncGen.c) variant = the code as it is: t313, pad, closed_first; the CPython 3.12
+# reference is "001".  After proposed_fixes/C23-asyncgen_already_running_message_padding.diff flip char 1 to "0".
+AV = os.environ.get("C23_AV", "1111")
+AV_PY = "0010"
+AV_NAMES = ["asyncgen_awaitable_throw_close_follow_cpython313", "asyncgen_already_running_message_padding", None,
+            "asyncgen_aclose_throw_await_suspension_crash"]
 
 NONE, RECV = -1000000, -2000000
 
@@ -59,7 +84,14 @@ MSG = {"generator raised StopIteration": 0, "coroutine raised StopIteration": 0,
        "can't send non-None value to a just-started coroutine": 0,
        "can't send non-None value to a just-started async generator": 0,
        "generator already executing": 0, "coroutine already executing": 0,
-       "async generator already executing": 0}
+       "async generator already executing": 0,
+       "cannot reuse already awaited __anext__()/asend()": 10,
+       "cannot reuse already awaited aclose()/athrow()": 11,
+       "anext(): asynchronous generator is already running": 12,
+       "aclose(): asynchronous generator is already running": 13,
+       "athrow(): asynchronous generator is already running": 14,
+       " anext(): asynchronous generator is already running": 112}
+NON_INIT = "can't send non-None value to a just-started coroutine"
 
 def exc_cls(e):
     if isinstance(e, GeneratorExit): return 2
@@ -77,6 +109,7 @@ def sval(v):
 def sexc(e):
     c = exc_cls(e)
     if c == 3: return "3:" + sval(e.value)
+    if c == 4 and str(e) == NON_INIT: return "4:15"
     if c in (4, 5, 6):
         m = MSG.get(str(e))
         return "%d:%s" % (c, m if m is not None else "?" + str(e))
@@ -95,6 +128,7 @@ def val_of_spec(a, inp, isexc):
 def make_exc(a, b):
     if a == 2: return GeneratorExit()
     if a == 3: return StopIteration(val_of_code(b)) if b != NONE else StopIteration()
+    if a == 8: return StopAsyncIteration()
     return USER[a - 10]()
 def exc_of_spec(a, b, inp, isexc):
     if a == -2: return inp if isexc else U9()
@@ -287,6 +321,81 @@ def run_async_history(factory, hist):
     finally:
         sys.unraisablehook = old
     return out
+
+def _tok_exc(body):
+    p = body.split(":")
+    b = NONE if len(p) < 2 or p[1] == "N" else int(p[1])
+    return make_exc(int(p[0]), b)
+def run_ag_history(factory, hist):
+    # async generator driven through its awaitable objects.  Tokens: H (first: install asyncgen hooks),
+    # A<slot><kind> new awaitable (kind n | s<v> | t<cls>[:v] | c) in a slot, S<slot><v> send, I<slot> next(),
+    # X<slot><cls>[:v] throw, C<slot> close, D<slot> drive with send(None) until the awaitable finishes (<= 8
+    # suspensions), d drop every reference.  Per op: [result|r<ag_running>, log slice]
+    del LOG[:]
+    out = []
+    unr = []
+    old = sys.unraisablehook
+    oldh = sys.get_asyncgen_hooks()
+    outer = [0]
+    def hook(u):
+        if id(u.object) == outer[0]: unr.append(u.exc_value)
+        else: LOG.append("UN:" + sexc(u.exc_value))
+    sys.unraisablehook = hook
+    if hist and hist[0] == "H":
+        sys.set_asyncgen_hooks(firstiter=lambda g: LOG.append("FI"), finalizer=lambda g: LOG.append("FZ"))
+        hist = hist[1:]
+        out.append(["H", []])
+    box = [factory()]
+    outer[0] = id(box[0])
+    slots = {}
+    try:
+        with warnings.catch_warnings(record=True) as wl:
+            warnings.simplefilter("always")
+            for tok in hist:
+                n0 = len(LOG)
+                g = box[0]
+                kind = tok[0]
+                aw = None
+                try:
+                    if kind == "A":
+                        what = tok[2:]
+                        if what == "n": aw = g.__anext__()
+                        elif what[0] == "s": aw = g.asend(parse_val(what[1:]))
+                        elif what[0] == "t": aw = g.athrow(_tok_exc(what[1:]))
+                        else: aw = g.aclose()
+                        slots[int(tok[1])] = aw
+                        r = "A"
+                    elif kind == "d":
+                        aw = None; g = None; slots.clear(); del box[:]; gc.collect(0)
+                        if unr: r = "U" + sexc(unr[0])
+                        elif any("never awaited" in str(w.message) for w in wl): r = "W"
+                        else: r = "N"
+                    else:
+                        aw = slots.get(int(tok[1]))
+                        if aw is None: r = "-"
+                        elif kind == "S": r = "Y" + sval(aw.send(parse_val(tok[2:])))
+                        elif kind == "I": r = "Y" + sval(next(aw))
+                        elif kind == "X": r = "Y" + sval(aw.throw(_tok_exc(tok[2:])))
+                        elif kind == "C":
+                            aw.close(); r = "N"
+                        else:
+                            n = 0
+                            while n < 8:
+                                v = aw.send(None)
+                                LOG.append("susp:" + sval(v)); n += 1
+                            r = "M"
+                except BaseException as e:
+                    r = "E" + sexc(e); e = None
+                aw = None
+                if box: r += "|r%d" % bool(g.ag_running)
+                g = None
+                out.append([r, LOG[n0:]])
+                if kind == "d": break
+            slots.clear(); g = None; del box[:]
+    finally:
+        sys.unraisablehook = old
+        sys.set_asyncgen_hooks(*oldh)
+    return out
 '''
 
 TBL = r'''# cython: language_level=3
@@ -348,6 +457,36 @@ async def tblcoro(T, k, gid, impl):
             return S.val_of_spec(a, inp, isexc)
         else:
             raise S.exc_of_spec(a, b, inp, isexc)
+
+async def tblagen(T, k, gid, impl):
+    rows = T[0]
+    inp = None; isexc = False
+    while True:
+        S.LOG.append("%d:%d/%s" % (gid, k, S.sinput(inp, isexc)))
+        r = S.find(rows, k, S.in_cls(inp, isexc))
+        if r is None:
+            if isexc:
+                raise inp
+            return
+        tag, a, b = r
+        if tag == 0:
+            try:
+                inp = yield S.val_of_spec(a, inp, isexc)
+                isexc = False
+            except BaseException as e:
+                inp = e; isexc = True
+            k = b
+        elif tag == 1:
+            try:
+                inp = await S.mk(T, a, gid, impl, True)
+                isexc = False
+            except BaseException as e:
+                inp = e; isexc = True
+            k = b
+        elif tag == 2:
+            return
+        else:
+            raise S.exc_of_spec(a, b, inp, isexc)
 '''
 
 DRIVER = r'''
@@ -365,7 +504,20 @@ for name in spec["modules"]:
 tc, tp = mods["c23_tbl"]
 S.REG["cyg"] = tc.tblgen; S.REG["pyg"] = tp.tblgen
 S.REG["cyc"] = tc.tblcoro; S.REG["pyc"] = tp.tblcoro
-out = {"tbl": [], "st": []}
+out = {"tbl": [], "st": [], "ag": []}
+for case in spec.get("atables", []):
+    rows = {(r[0], r[1]): (r[2], r[3], r[4]) for r in case["rows"]}
+    T = (rows, case["subs"], {})
+    res = []
+    for h in case["hists"]:
+        pair = []
+        for impl, f in (("cy", tc.tblagen), ("py", tp.tblagen)):
+            try:
+                pair.append(S.run_ag_history(lambda: f(T, case["k0"], 0, impl), h))
+            except BaseException as e:
+                pair.append([["HARNESS " + repr(e), []]])
+        res.append(pair)
+    out["ag"].append(res)
 for case in spec["tables"]:
     rows = {(r[0], r[1]): (r[2], r[3], r[4]) for r in case["rows"]}
     T = (rows, case["subs"], {int(k): v for k, v in case["probes"].items()})
@@ -389,7 +541,9 @@ for case in spec["structured"]:
         for m in (cy, py):
             f = getattr(m, fn)
             try:
-                if kind == "a":
+                if kind == "A":
+                    pair.append(S.run_ag_history(f, h))
+                elif kind == "a":
                     pair.append(S.run_async_history(f, h))
                 else:
                     pair.append(S.run_history(f, h, coro=(kind == "c")))
@@ -477,6 +631,97 @@ def gen_history(rng, maxlen, coro=False):
         o = rng.choice(OPS)
         h.append(o)
         if o == "d":
+            break
+    return h
+
+
+# ---- async generators driven through their awaitables ----------------------
+AKINDS = ["n", "n", "n", "n", "sN", "s7", "s7", "t10", "t11", "t2", "t3:5", "t8", "c", "c", "c", "c"]
+XKINDS = ["10", "11", "2", "2", "3:5", "3:N", "8"]
+
+
+def gen_atable(rng):
+    """step table of an async generator body: async yield / await a sub-awaitable / return / raise per
+    (label, input class); GeneratorExit, StopAsyncIteration and StopIteration rows are favoured"""
+    n = rng.randint(2, 5)
+    labels = list(range(n))
+    slabels = [100 + i for i in range(rng.randint(1, 2))]
+    subs = []
+    for _ in range(rng.randint(1, 3)):
+        if rng.random() < 0.4:
+            subs.append([0, 0, 0, [rng.choice([NONE, 5, 6, 8]) for _ in range(rng.randint(0, 2))]])
+        else:
+            subs.append([3, rng.choice(slabels), rng.choice([0, 1, 2, 3, 4, 5, 6, 7, 7, 7]), []])
+    rows = []
+    incls_all = [0, 1, 2, 2, 3, 8, 10, 11, 4, -1]
+
+    def val(k):
+        return rng.choice([k * 10 + rng.randint(0, 3), RECV, NONE, 7])
+
+    def exc():
+        return rng.choice([[-2, 0], [-2, 0], [2, 0], [3, NONE], [3, rng.randint(1, 4)], [8, 0], [8, 0], [10, 0], [11, 0]])
+
+    for k in labels:
+        cls = set(rng.sample(incls_all, rng.randint(1, 5)))
+        if k == 0:
+            cls.add(0)
+        if rng.random() < 0.7:
+            cls.add(2)
+        for c in sorted(cls):
+            t = rng.choice(["Y", "Y", "Y", "Y", "F", "F", "R", "X"])
+            if t == "Y":
+                rows.append([k, c, 0, val(k), rng.choice(labels)])
+            elif t == "F":
+                rows.append([k, c, 1, rng.randrange(len(subs)), rng.randint(k + 1, n)])   # forward only: progress
+            elif t == "R":
+                rows.append([k, c, 2, NONE, 0])
+            else:
+                e = exc()
+                rows.append([k, c, 3, e[0], e[1]])
+    for k in slabels:
+        for c in sorted(set(rng.sample([0, 0, 1, 2, 2, 3, 8, 10, 20, 20, -1], rng.randint(1, 5)))):
+            t = rng.choice(["Y", "Y", "Y", "R", "X"])
+            if t == "Y":
+                rows.append([k, c, 0, val(k), rng.choice(slabels)])
+            elif t == "R":
+                rows.append([k, c, 2, val(k), 0])
+            else:
+                e = exc()
+                if c == 20 and e[0] == -2:
+                    e = [10, 0]
+                rows.append([k, c, 3, e[0], e[1]])
+    return {"rows": rows, "subs": subs, "k0": 0}
+
+
+def gen_ahistory(rng, maxlen):
+    """operations on the generator (anext/asend/athrow/aclose driven to completion) mixed with the single
+    steps of up to three awaitables held at the same time"""
+    h = ["H"] if rng.random() < 0.2 else []
+    low = rng.choice([0.0, 0.3, 0.6, 1.0])
+    for _ in range(rng.randint(1, maxlen)):
+        if rng.random() >= low:
+            h += ["A0" + rng.choice(AKINDS), "D0"]
+            continue
+        j = rng.choice("001")
+        if rng.random() < 0.15:
+            j = "2"
+        c = rng.random()
+        if c < 0.34:
+            h.append("A" + j + rng.choice(AKINDS))
+        elif c < 0.62:
+            h.append("S" + j + "N")
+        elif c < 0.68:
+            h.append("S" + j + "7")
+        elif c < 0.74:
+            h.append("I" + j)
+        elif c < 0.86:
+            h.append("X" + j + rng.choice(XKINDS))
+        elif c < 0.92:
+            h.append("C" + j)
+        elif c < 0.98:
+            h.append("D" + j)
+        else:
+            h.append("d")
             break
     return h
 
@@ -684,10 +929,60 @@ async def ha_catch():
         S.LOG.append("ge")
         raise
     yield 3
+async def ha_stubborn():
+    try:
+        S.LOG.append("start")
+        yield 1
+    except GeneratorExit:
+        S.LOG.append("ge")
+        yield 2
+    S.LOG.append("after")
+    try:
+        yield 3
+    finally:
+        S.LOG.append("fin")
+async def ha_fin_await():
+    try:
+        yield 1
+        yield 2
+    finally:
+        S.LOG.append("fin1")
+        await S.Y(8)
+        S.LOG.append("fin2")
+async def ha_fin_yield():
+    try:
+        x = yield 1
+        S.LOG.append("x=%s" % S.sval(x))
+    finally:
+        yield 9
+async def ha_raise_sai():
+    x = yield 1
+    if x == 7:
+        raise StopAsyncIteration
+    try:
+        yield 2
+    except S.U0:
+        raise StopIteration(3)
+    except S.U1:
+        return
+    yield 4
+async def ha_await_first():
+    x = await S.Y(5)
+    S.LOG.append("aw=%s" % S.sval(x))
+    try:
+        y = yield 1
+        await S.Y(6)
+    except GeneratorExit:
+        S.LOG.append("ge")
+        await S.Y(7)
+        raise
+    yield 2
 '''
 HAND_FUNCS = [("h_close_ret", "g"), ("h_first_send", "g"), ("h_plain", "g"), ("h_finally", "g"), ("h_ignore", "g"),
               ("h_inner", "g"), ("h_outer", "g"), ("h_yf_list", "g"), ("h_raise_si", "g"), ("h_nested_fin", "g"),
-              ("hc_simple", "c"), ("hc_outer", "c"), ("ha_simple", "a"), ("ha_catch", "a")]
+              ("hc_simple", "c"), ("hc_outer", "c"), ("ha_simple", "a"), ("ha_catch", "a"),
+              ("ha_stubborn", "a"), ("ha_fin_await", "a"), ("ha_fin_yield", "a"), ("ha_raise_sai", "a"),
+              ("ha_await_first", "a")]
 
 
 # ----------------------------------------------------------------------------- encoding for the model
@@ -696,6 +991,38 @@ def enc_case(impl, case, hist, fx, depth=12):
     subs = "/".join(",".join(str(x) for x in [s[0], s[1], s[2]] + list(s[3])) for s in case["subs"]) or "-"
     return "run %s %d %s %d %d %s %s %s" % (impl, 1 if case["coro"] else 0, fx, depth, case["k0"], rows, subs,
                                             ",".join(hist) or "-")
+
+
+def enc_acase(impl, case, hist, fx, av, depth=4):
+    rows = ",".join(str(x) for r in case["rows"] for x in r) or "-"
+    subs = "/".join(",".join(str(x) for x in [s[0], s[1], s[2]] + list(s[3])) for s in case["subs"]) or "-"
+    return "arun %s %s %s %d %d %s %s %s" % (impl, fx, av, depth, case["k0"], rows, subs, ",".join(hist) or "-")
+
+
+def amodel_trace(line, hist=()):
+    """-> list of (result|r, first body resumption, suspension values, hook events) or None (out of fuel)"""
+    if line.startswith("!"):
+        return None
+    out = []
+    parts = line.split(";")
+    for n, part in enumerate(parts):
+        r, run, log, susp, ev = part.split("|")
+        if not (n == len(parts) - 1 and hist and hist[-1] == "d"):
+            r = r + "|" + run
+        out.append((r, log.split("+")[0], tuple(x for x in susp.split("+") if x), tuple(x for x in ev.split("+") if x)))
+    return out
+
+
+def aimpl_view(trace):
+    """compiled / CPython trace projected on what the model describes"""
+    out = []
+    for r, log in trace:
+        if r == "H":
+            continue
+        out.append((r, ([e[2:] for e in log if e.startswith("0:")] + [""])[0],
+                    tuple(e[5:] for e in log if e.startswith("susp:")),
+                    tuple({"FI": "1", "FZ": "2"}[e] for e in log if e in ("FI", "FZ"))))
+    return out
 
 
 def model_trace(line):
@@ -737,7 +1064,7 @@ def prefix_len(m, oracle):
 def classify_tbl_batch(model, items):
     """class of each table failure = the (first flag of the smallest set of) repaired model variant(s)
     that removes the FIRST divergence from CPython's trace.  items: [(case, hist, oracle_view)] -> [class]"""
-    open_flags = [i for i in range(4) if FX[i] != "1"]
+    open_flags = [i for i in range(len(FX)) if FX[i] != "1"]
     sets = [(i,) for i in open_flags] + list(itertools.combinations(open_flags, 2)) + [tuple(open_flags)]
     variants = [FX]
     for st in sets:
@@ -778,6 +1105,208 @@ def classify_struct(hist, cy, py):
         return FX_NAMES[2]
     if FX[3] != "1" and i < len(cy) and i < len(py) and (hist[i].startswith("t3") or hist[i] in ("c", "t2")):
         return FX_NAMES[3]
+    return "trace_mismatch"
+
+
+# fixed async generator bodies whose short histories are enumerated exhaustively
+FIXED_ATABLES = [
+    # answers GeneratorExit with another yield ("ignored GeneratorExit"), then behaves
+    {"rows": [[0, 0, 0, 1, 1], [1, 2, 0, 2, 2], [1, -1, 0, 3, 2], [2, 2, 2, NONE, 0], [2, 10, 3, -2, 0], [2, -1, 0, 4, 2]],
+     "subs": [[0, 0, 0, []]], "k0": 0},
+    # awaits before the first yield and inside the GeneratorExit handler
+    {"rows": [[0, 0, 1, 0, 1], [1, -1, 0, 1, 2], [2, 2, 1, 1, 3], [2, -1, 0, 2, 2], [3, -1, 2, NONE, 0],
+              [100, 0, 0, 1000, 101], [100, 2, 0, 1001, 101], [101, -1, 2, NONE, 0]],
+     "subs": [[0, 0, 0, [5]], [3, 100, 7, []]], "k0": 0},
+    # raises StopAsyncIteration / StopIteration / re-raises GeneratorExit / returns
+    {"rows": [[0, 0, 0, 1, 1], [1, 1, 3, 8, 0], [1, 10, 3, 3, 5], [1, 2, 3, 2, 0], [1, 11, 2, NONE, 0], [1, -1, 0, 2, 1]],
+     "subs": [[0, 0, 0, []]], "k0": 0},
+]
+FIXED_OPS = [["A0n", "D0"], ["A0s7", "D0"], ["A0t10", "D0"], ["A0t2", "D0"], ["A0c", "D0"], ["A1c"], ["S1N"], ["X111"], ["C1"]]
+
+
+def fixed_histories(n):
+    out = []
+    for ln in range(1, n + 1):
+        for combo in itertools.product(FIXED_OPS, repeat=ln):
+            out.append([t for c in combo for t in c])
+    return out
+
+
+def classify_ag_batch(amodel, items):
+    """class of an async-generator failure whose compiled trace agrees with the model of the code as it is:
+    the first model variant flag (generator layer FX, async layer AV) whose CPython value removes the first
+    divergence from CPython's trace.  items: [(case, hist, oracle_view)]"""
+    singles = [("fx", i) for i in range(len(FX)) if FX[i] != "1"] + [("av", i) for i in range(len(AV)) if AV[i] != AV_PY[i]]
+    cands = [(c,) for c in singles] + list(itertools.combinations(singles, 2)) + [tuple(singles)]
+    variants = [(FX, AV)]
+    for st in cands:
+        fx, av = FX, AV
+        for kind, i in st:
+            if kind == "fx":
+                fx = flip(fx, i)
+            else:
+                av = av[:i] + AV_PY[i] + av[i + 1:]
+        variants.append((fx, av))
+    nv = len(variants)
+    lines = [enc_acase("cy", case, hist, fx, av) for case, hist, _ in items for fx, av in variants]
+    res = amodel.batch(lines)
+    out = []
+    for n, (case, hist, oracle_view) in enumerate(items):
+        ms = [amodel_trace(x, hist) for x in res[n * nv:(n + 1) * nv]]
+        base = prefix_len(ms[0], oracle_view)
+        klass = "trace_mismatch"
+        for st, m in zip(cands, ms[1:]):
+            if prefix_len(m, oracle_view) > base:
+                kind, i = st[0]
+                klass = FX_NAMES[i] if kind == "fx" else AV_NAMES[i]
+                break
+        out.append(klass)
+    return out
+
+
+def run_async_tables(ctx, quick, maxlen, structured):
+    """async generators through their awaitables: three-way on table bodies"""
+    rng = ctx.rng
+    natab, nahist, nfix, ncrash = (110, 24, 3, 2) if quick else (500, 70, 4, 6)
+    atables = []
+    for i in range(natab):
+        case = gen_atable(rng)
+        hs = set()
+        while len(hs) < nahist:
+            hs.add(tuple(gen_ahistory(rng, maxlen)))
+        case["hists"] = [list(h) for h in sorted(hs)]
+        atables.append(case)
+    for t in FIXED_ATABLES:
+        case = dict(t)
+        case["hists"] = fixed_histories(nfix) + [["H"] + h for h in fixed_histories(2)]
+        case["fixed"] = True
+        atables.append(case)
+    amodel = ctx.model("asyncgen")
+    lines = []
+    for case in atables:
+        for h in case["hists"]:
+            lines.append(enc_acase("cy", case, h, FX, AV))
+            lines.append(enc_acase("py", case, h, FX, AV_PY))
+    mres = amodel.batch(lines)
+    # histories on which the model of the code as it is predicts the death of the process are run apart
+    li = 0
+    crash = []
+    mtr = []
+    for case in atables:
+        keep, km = [], []
+        for h in case["hists"]:
+            mcy, mpy = mres[li], mres[li + 1]
+            li += 2
+            if "E4:666" in mcy:
+                crash.append((case, h, mcy))
+            else:
+                keep.append(h); km.append((mcy, mpy))
+        case["hists"] = keep
+        mtr.append(km)
+    spec = {"modules": ["c23_tbl"], "tables": [], "structured": structured, "atables": atables}
+    with open(os.path.join(ctx.workdir, "aspec.json"), "w") as f:
+        json.dump(spec, f)
+    res = cybuild.run_script(DRIVER, ctx.workdir, stdin_obj=spec, timeout=3000)
+    if res["json"] is None:
+        unit, ures = isolate_crash(ctx, spec)
+        if unit is not None:
+            ctx.fail("process_crash", unit, "rc=%s %s" % (ures["rc"], (ures["err"] or ures["out"])[-600:]),
+                     "the history runs to completion as it does in CPython")
+        else:
+            ctx.corr_break("driver", "async driver", "rc=%s %s" % (res["rc"], (res["err"] or res["out"])[-1500:]), "driver runs")
+        return None
+    out = res["json"]
+    nfuel = 0
+    failing = []
+    for case, cres, km in zip(atables, out["ag"], mtr):
+        cinfo = {k: case[k] for k in ("rows", "subs", "k0")}
+        for h, (cy, py), (lcy, lpy) in zip(case["hists"], cres, km):
+            inp = {"atable": cinfo, "history": h}
+            mcy, mpy = amodel_trace(lcy, h), amodel_trace(lpy, h)
+            cyv, pyv = aimpl_view(cy), aimpl_view(py)
+            low = any(t[0] in "SXCI" for t in h)
+            two = len(set(t[1] for t in h if t[0] in "ASXCID" and len(t) > 1)) > 1
+            stratum = "atbl/%s/%s%s%s" % ("fixed" if case.get("fixed") else "random", "steps" if low else "ops",
+                                          "/interleaved" if two else "", "/hooks" if h[0] == "H" else "")
+            ctx.case(stratum, inp, sig=(json.dumps(cinfo, sort_keys=True), tuple(h)), nontrivial=any(l for _, l in py))
+            if mcy is None or mpy is None:
+                nfuel += 1
+                continue
+            if any(r.startswith("HARNESS") for r, _ in cy + py):
+                ctx.corr_break("agen:harness", inp, cy, py)
+                continue
+            tie = True
+            if h[-1] == "d" and len(cy) == len(py) and cy[:-1] == py[:-1] and cy[-1][0] == "N" and py[-1][0] == "U8:" \
+                    and cy[-1][1] == py[-1][1]:
+                # CPython 3.12 gen_close(): a body that RETURNS on GeneratorExit makes gen_send_ex set
+                # StopAsyncIteration, which gen_close does not clear -> reported as unraisable at finalisation.
+                # Not modelled (py_close says None); the remaining steps are tied as usual.
+                ctx.fail(QUIRK_CLOSE_RETURN, inp, cy, py)
+                if cyv != mcy:
+                    ctx.corr_break("agen:cy_world_op", inp, cyv, mcy)
+                if pyv[:-1] != mpy[:-1]:
+                    ctx.corr_break("agen:py_world_op(CPython)", inp, pyv, mpy)
+                continue
+            if cyv != mcy:
+                ctx.corr_break("agen:cy_world_op", inp, cyv, mcy)
+                tie = False
+            if pyv != mpy:
+                ctx.corr_break("agen:py_world_op(CPython)", inp, pyv, mpy)
+            if cy != py:
+                failing.append((case, h, pyv, inp, cy, py, tie))
+    tied = [f for f in failing if f[6]]
+    for klass, f in zip(classify_ag_batch(amodel, [f[:3] for f in tied]), tied):
+        ctx.fail(klass, f[3], f[4], f[5])
+    for f in failing:
+        if not f[6]:
+            ctx.fail("trace_mismatch", f[3], f[4], f[5])
+    if nfuel:
+        ctx.note("%d async table cases skipped: executable instance out of fuel" % nfuel)
+    # predicted process deaths: the history up to the fatal step, each in its own process
+    crash.sort(key=lambda c: len(c[1]))
+    for case, h, mcy in crash[:ncrash]:
+        k = len(mcy.split(";")) + (1 if h and h[0] == "H" else 0)
+        hh = h[:k]
+        one = {"modules": ["c23_tbl"], "tables": [], "structured": [],
+               "atables": [{"rows": case["rows"], "subs": case["subs"], "k0": case["k0"], "hists": [hh]}]}
+        r = cybuild.run_script(DRIVER, ctx.workdir, stdin_obj=one, timeout=300)
+        inp = {"atable": {k2: case[k2] for k2 in ("rows", "subs", "k0")}, "history": hh}
+        ctx.case("atbl/predicted_crash", inp, sig=(json.dumps(inp, sort_keys=True),))
+        if r["json"] is None:
+            ctx.fail(AV_NAMES[3], inp, "process died rc=%s" % r["rc"], "the awaitable suspends with the awaited value (CPython)")
+        else:
+            ctx.corr_break("agen:predicted_crash", inp, r["json"]["ag"][0][0][0], mcy)
+    ctx.extra["async_predicted_crash_histories"] = len(crash)
+    return out
+
+
+def gen_ahistory_struct(rng, maxlen):
+    """histories for structured async bodies (compiled vs CPython only): no throw()/close() on the awaitables
+    (their version drift and the aclose().throw() crash are separated by the model on table bodies)"""
+    return [t for t in gen_ahistory(rng, maxlen) if t[0] not in "XC"]
+
+
+QUIRK_CLOSE_RETURN = "asyncgen_finalise_return_on_genexit_cpython312_unraisable"
+
+
+def classify_astruct(h, cy, py):
+    i = 0
+    while i < min(len(cy), len(py)) and cy[i] == py[i]:
+        i += 1
+    if i >= len(cy) or i >= len(py) or i >= len(h):
+        return "trace_mismatch"
+    c, p_, tok = cy[i][0], py[i][0], h[i]
+    if tok == "d" and c == "N" and p_ == "U8:" and cy[i][1] == py[i][1]:
+        return QUIRK_CLOSE_RETURN
+    started = any(e.startswith("start") for r in py[:i] for e in r[1])
+    if FX[4] != "1" and tok == "d" and c == "W" and p_ == "N":
+        return FX_NAMES[4]
+    if AV[1] != "0" and c.startswith("E4:112") and p_.startswith("E4:12"):
+        return AV_NAMES[1]
+    if FX[1] != "1" and not started and tok[0] in "DSI" and c.startswith("E4:") and (p_.startswith("E3:") or p_.startswith("E8:")):
+        j = max([n for n in range(i) if h[n][0] == "A" and h[n][1] == tok[1]] or [-1])
+        if j >= 0 and h[j][2:].startswith(("t3", "t8")):
+            return FX_NAMES[1]
     return "trace_mismatch"
 
 
@@ -868,6 +1397,11 @@ def run(ctx):
         for _ in range(nsh * 3):
             hs.add(tuple(gen_history(rng, maxlen)))
         runs += [[fn, kind, list(h)] for h in sorted(hs)]
+        if kind == "a":
+            hs = set()
+            for _ in range(nsh * 3):
+                hs.add(tuple(gen_ahistory_struct(rng, maxlen)))
+            runs += [[fn, "A", list(h)] for h in sorted(hs) if h]
     structured.append({"module": "c23_tbl", "runs": runs})
     for i in range(nmods):
         runs = []
@@ -876,6 +1410,11 @@ def run(ctx):
             for _ in range(nsh):
                 hs.add(tuple(gen_history(rng, maxlen)))
             runs += [["f%d" % j, kinds[i][j], list(h)] for h in sorted(hs)]
+            if kinds[i][j] == "a":
+                hs = set()
+                for _ in range(nsh):
+                    hs.add(tuple(gen_ahistory_struct(rng, maxlen)))
+                runs += [["f%d" % j, "A", list(h)] for h in sorted(hs) if h]
         structured.append({"module": "c23_s%d" % i, "runs": runs})
     spec = {"modules": [s["name"] for s in specs], "tables": tables, "structured": structured}
     with open(os.path.join(ctx.workdir, "spec.json"), "w") as f:
@@ -945,17 +1484,20 @@ def run(ctx):
         for (fn, kind, h), (cy, py) in zip(case["runs"], cres):
             inp = {"module": case["module"], "func": fn, "kind": kind, "history": h}
             resumed = any(log for _, log in py)
-            ctx.case("struct/%s/%s" % ({"g": "gen", "c": "coro", "a": "asyncgen"}[kind],
+            ctx.case("struct/%s/%s" % ({"g": "gen", "c": "coro", "a": "asyncgen", "A": "asyncgen-awaitables"}[kind],
                                        "hand" if case["module"] == "c23_tbl" else "random"),
                      inp, sig=(case["module"], fn, tuple(h)), nontrivial=resumed)
             if any(r[0].startswith("HARNESS") for r in cy + py):
                 ctx.corr_break("gen:harness", inp, cy, py)
                 continue
             if cy != py:
-                klass = classify_struct(h, cy, py)
+                klass = classify_astruct(h, cy, py) if kind == "A" else classify_struct(h, cy, py)
                 if case["module"] != "c23_tbl":
                     inp["source"] = source_of(ctx, case["module"], fn)
                 ctx.fail(klass, inp, cy, py)
+
+
+    run_async_tables(ctx, quick, maxlen, [])
 
 
 def source_of(ctx, module, fn):
@@ -981,7 +1523,10 @@ def replay(ctx, obj):
                           workdir=ctx.workdir))
     cybuild.build_many(specs, jobs=3)
     spec = {"modules": [s["name"] for s in specs], "tables": [], "structured": []}
-    if "table" in inp:
+    if "atable" in inp:
+        case = dict(inp["atable"]); case["hists"] = [inp["history"]]
+        spec["atables"] = [case]
+    elif "table" in inp:
         case = dict(inp["table"]); case["hists"] = [inp["history"]]
         spec["tables"].append(case)
     else:
